@@ -337,7 +337,7 @@ def _job(args):
 
 
 def run(ctx):
-    depth = 3 if ctx.thorough else 2
+    depth = 4 if ctx.thorough else 2
     jobs = []
     for method in METHODS:
         for kname, dim in KERNELS:
